@@ -186,13 +186,17 @@ def run(prog, world, sem, rep):
         bad = []
         n = 0
         for (vis, bb, kind, cell, key, val, e) in eff:
-            if cell in LEDGER and kind in ("write", "update", "remove") and vis is dvis:
-                n += 1
-                if cont is None or bb in be.cfg.reach([0], removed={cont}):
-                    bad.append(where(vis.body, bb))
-            elif cell in LEDGER and kind in ("write", "update", "remove"):
-                n += 1
-                bad.append("ledger write outside the handler: %s" % where(vis.body, bb))
+            if not (cell in LEDGER and kind in ("write", "update", "remove")):
+                continue
+            n += 1
+            # the write, or the call of the helper that performs it, as seen from the function that deducts the allowance
+            lv, lbb = vis, bb
+            while lv is not dvis and lv.parent is not None:
+                lv, lbb = lv.parent
+            if lv is not dvis:
+                bad.append("ledger write not under the function that deducts the allowance: %s" % where(vis.body, bb))
+            elif cont is None or lbb in be.cfg.reach([0], removed={cont}):
+                bad.append(where(vis.body, bb))
         rep.ob("C18.d", "bsei::%s allowance deducted before any ledger write" % v, n > 0 and not bad,
                "ledger writes reachable without a successful allowance deduction: %s" % bad if bad else "%d ledger writes all behind the deduction's `?`" % n,
                where(dvis.body, dbb))
